@@ -84,6 +84,18 @@ pub fn parse<'a>(r: &'a RunResult) -> Parsed<'a> {
 
     fn close<'a>(p: &mut Parsed<'a>, cur: &mut Samp<'a>, t: usize) {
         let mut s = std::mem::take(cur);
+        // A lone clock reading with nothing around it is not a sample (but
+        // the caller's very first one is kept: it may be the loop's initial
+        // timestamp of a run that recorded nothing).
+        let workload = |v: &Vec<&Event>| v.iter().any(|e| matches!(e.kind, Ev::User(_) | Ev::TallyCleared));
+        if s.end.is_none()
+            && !(t == 0 && p.by_thread[0].is_empty() && p.initial.is_none())
+            && !workload(&s.pre)
+            && !workload(&s.win)
+            && !workload(&s.post)
+        {
+            return;
+        }
         s.tid = t;
         s.round = p.by_thread[t].len();
         p.by_thread[t].push(s);
@@ -124,6 +136,15 @@ pub fn parse<'a>(r: &'a RunResult) -> Parsed<'a> {
                         // What followed the initial timestamp was
                         // preparation, not a timed section (synchronisation
                         // there is of no interest).
+                        let moved = std::mem::take(&mut cur[t].win);
+                        cur[t].pre.extend(moved.into_iter().filter(|e| {
+                            matches!(e.kind, Ev::User(_) | Ev::TallyCleared | Ev::ClockRead { .. })
+                        }));
+                        cur[t].start = Some(e);
+                    } else if !cur[t].win.iter().any(|e| matches!(e.kind, Ev::User(UserEv::CallBegin { .. }))) {
+                        // A reading that no call followed was not the start
+                        // of a timed section (the library may look at the
+                        // clock between samples for its own purposes).
                         let moved = std::mem::take(&mut cur[t].win);
                         cur[t].pre.extend(moved.into_iter().filter(|e| {
                             matches!(e.kind, Ev::User(_) | Ev::TallyCleared | Ev::ClockRead { .. })
